@@ -213,6 +213,12 @@ class TDS(BaseRoutine):
         system.store_no_check_init(models=system.exist.pflow_tds)
         system.vars_to_models()
 
+        # models without the `tds` flag (e.g., DC network elements, VSCShunt) are not
+        # re-initialized below; refresh their input references to the reallocated arrays
+        for mdl in system.exist.pflow_tds.values():
+            if mdl.n > 0 and not mdl.flags.tds:
+                mdl.get_inputs(refresh=True)
+
         system.init(system.exist.tds, routine='tds')
 
         self.fg_update(system.exist.tds, init=True)
